@@ -134,6 +134,18 @@ fn s_rename(t: &mut Tape, ctx: &mut Ctx) -> Result<(), Failure> {
             }
         }
         check_maps(&g2, &text2, &maps2, ctx, "c17", &[false])?;
+        // names, layout, parentheses and alias spellings do not reach Simplicity: the commitment
+        // (without debug symbols) is the same
+        if let (Ok(c1), Ok(c2)) = (compile(&base_text, to_arguments(&g), false, "c17"), compile(&text2, to_arguments(&g2), false, "c17")) {
+            ctx.evals(1);
+            if c1.info.cmr != c2.info.cmr {
+                return Err(Failure::new(
+                    "c17:cmr-differs-under-transformation",
+                    format!("the {what} variant commits to another CMR ({} vs {})\n--- original ---\n{}\n--- variant ---\n{}", c1.info.cmr, c2.info.cmr, truncate(&base_text, 2000), truncate(&text2, 2500)),
+                )
+                .with(json!({"original": base_text, "variant": text2, "transformation": what})));
+            }
+        }
         if interesting {
             ctx.nontrivial(digest(&[text2.as_bytes()]));
         }
@@ -149,7 +161,7 @@ pub fn streams() -> Vec<Stream> {
 pub fn def() -> PropertyDef {
     PropertyDef {
         id: "C17",
-        rule: "generated programs x 3 variants each: two alpha-renamings with an injective identifier map per namespace (variables and parameters, functions, aliases, witnesses) whose names are drawn 4:2:3 from {reserved word + suffix (_, digit, letter, _x, ...) over all keywords, builtin types, builtin functions, the 24 builtin aliases, Left Right Some None true false jet witness param list main}, {hand-picked awkward names and case variants}, {random identifiers}, never an exact reserved word; and one of {replace every alias by its definition, wrap random sub-expressions in parentheses}; every variant rendered with a random layout. Oracle (metamorphic): the variant is accepted, and on every witness assignment of the case (all when <= 32, else sampled; witnesses renamed alike) its verdict equals the reference interpreter's verdict for the original. evaluations = program executions. Non-trivial = variant whose map contains a reserved-word-derived name, or an alias-expansion / parenthesisation variant; distinct by digest.",
+        rule: "generated programs x 3 variants each: two alpha-renamings with an injective identifier map per namespace (variables and parameters, functions, aliases, witnesses) whose names are drawn 4:2:3 from {reserved word + suffix (_, digit, letter, _x, ...) over all keywords, builtin types, builtin functions, the 24 builtin aliases, Left Right Some None true false jet witness param list main}, {hand-picked awkward names and case variants}, {random identifiers}, never an exact reserved word; and one of {replace every alias by its definition, wrap random sub-expressions in parentheses}; every variant rendered with a random layout. Oracle (metamorphic): the variant is accepted, and on every witness assignment of the case (all when <= 32, else sampled; witnesses renamed alike) its verdict equals the reference interpreter's verdict for the original; the CMR of the build without debug symbols equals the original's (no name, comment or parenthesis reaches Simplicity). evaluations = program executions. Non-trivial = variant whose map contains a reserved-word-derived name, or an alias-expansion / parenthesisation variant; distinct by digest.",
         assumptions: &["the reserved-word list is the one of the property statement; exact reserved words are never used as names"],
         streams,
         health: &[("rename", "transform:alpha-rename", 900)],
